@@ -61,6 +61,8 @@ type TxGen struct {
 	rt *rtDriver
 	// km generates the key manager traffic (key manager support; nil without a key manager).
 	km *kmDriver
+	// vrf generates the VRF proof traffic (VRF beacon support; nil without the VRF backend).
+	vrf *vrfDriver
 }
 
 type maker struct {
@@ -887,7 +889,7 @@ func (g *TxGen) Next(height int64) []*GenTx {
 		if gt.Signer != nil && gt.Tx != nil && (gt.Intent == "valid" || gt.Intent == "gas-too-low" || gt.Intent == "malformed-body" ||
 			gt.Intent == "wrong-tx-signer" || gt.Intent == "missing-signature" || gt.Intent == "extra-signature" ||
 			gt.Intent == "duplicate-subkey" || gt.Intent == "bad-expiration" || gt.Intent == "forbidden-update" || gt.Intent == "former-owner-update" ||
-			strings.HasPrefix(gt.Intent, "rt:") || strings.HasPrefix(gt.Intent, "km:") || strings.HasPrefix(gt.Intent, "post:")) && gt.Tx.Nonce == g.nonce(gt.Signer) { // runtime / key manager support: "rt:" and "km:" intents fail after authentication
+			strings.HasPrefix(gt.Intent, "rt:") || strings.HasPrefix(gt.Intent, "km:") || strings.HasPrefix(gt.Intent, "vrf:") || strings.HasPrefix(gt.Intent, "post:")) && gt.Tx.Nonce == g.nonce(gt.Signer) { // runtime / key manager support: "rt:" and "km:" intents fail after authentication
 			g.bump(gt.Signer)
 		}
 	}
@@ -957,6 +959,13 @@ func (g *TxGen) Next(height int64) []*GenTx {
 	// key manager support: re-registrations that follow the status, secrets, applications and confirmations.
 	if g.h.Sc.KM != nil {
 		for _, gt := range g.kmDriver().txs() {
+			add(gt)
+		}
+	}
+
+	// VRF beacon support: the proofs of this block and their invalid variants.
+	if g.h.Sc.IsVRF() {
+		for _, gt := range g.vrfDriver().txs(height) {
 			add(gt)
 		}
 	}
